@@ -453,6 +453,35 @@ func main() {
 	judge(r, tcase{P: ref.Norm(map[string]interface{}{"a": []interface{}{map[string]interface{}{"v": "?x"}}}), D: ref.Norm(map[string]interface{}{"a": []interface{}{map[string]interface{}{"v": 1}, map[string]interface{}{"v": "1"}}})})
 	judge(r, tcase{P: ref.Norm(map[string]interface{}{"tags": []interface{}{"?t"}}), D: ref.Norm(map[string]interface{}{"tags": []interface{}{true, "true", "null", nil, "s1 s2"}})})
 
+	// deep documents: the same leaf pairs under 6-18 levels of maps and arrays (depth is no part of the
+	// fragment's definition: a difference or a variable at the bottom counts like one at the top)
+	for depth := 6; depth <= 18; depth++ {
+		for form := 0; form < 3; form++ {
+			asMap := make([]bool, depth)
+			for l := range asMap {
+				asMap[l] = form == 0 || (form == 2 && g.Intn(2) == 0)
+			}
+			wrap := func(leaf interface{}) interface{} {
+				x := leaf
+				for l := 0; l < depth; l++ {
+					switch {
+					case asMap[l]:
+						x = map[string]interface{}{fmt.Sprintf("k%d", l%3): x}
+					default:
+						x = []interface{}{x}
+					}
+				}
+				return map[string]interface{}{"top": x}
+			}
+			for _, pair := range [][2]interface{}{{"?y", "why"}, {"a", "b"}, {"a", "a"}, {map[string]interface{}{"v": "?y", "w": 1.0}, map[string]interface{}{"v": 2.0, "w": 1.0, "z": "more"}}, {1.0, 2.0}} {
+				pp := ref.Norm(wrap(pair[0]))
+				dd := ref.Norm(wrap(pair[1]))
+				r.Count("deep_cases", 1)
+				judge(r, tcase{P: pp, D: dd, Mode: pickMode(g)})
+			}
+		}
+	}
+
 	for i := 0; i < n; i++ {
 		var p, d interface{}
 		switch g.Intn(10) {
